@@ -10,6 +10,11 @@ from .. import specs, ref
 from ..core import fhex
 
 name = 'like'
+
+
+def RAISE_ORACLE(profile):
+    return 'I07.raise' if profile == 'est' else 'I04.raise'
+
 ALGOS = ['simple_bounds', 'simple_bounds_newton', 'simple_bounds_BFGS', 'scipy', 'automatic',
          'TR-newton', 'TR-BFGS', 'LS-newton', 'LS-BFGS']
 BOUNDED = {'simple_bounds', 'simple_bounds_newton', 'simple_bounds_BFGS', 'scipy', 'automatic'}
